@@ -48,12 +48,18 @@ type history struct {
 	// until Scan returns false (an error is recorded), then stops, and Err must
 	// keep reporting that earlier error.
 	Damaged bool
+	// FinalClose: call Close once more at the very end (otherwise the threads
+	// must have terminated by themselves after the stop).
+	FinalClose bool
 }
 
 func (h history) name() string {
 	d := ""
 	if h.Damaged {
 		d = " damaged-input"
+	}
+	if h.FinalClose {
+		d += " final-close"
 	}
 	return fmt.Sprintf("%s%s procs=%d scans=%d headerAt=%d stop=%s post=%s", h.Format, d, h.Procs, h.K, h.HeaderAt, stopNames[h.Stop], h.Post)
 }
@@ -137,6 +143,8 @@ func scenario(h history, bound int) vexplore.Scenario {
 				stopIssued         bool
 				phase              = "start"
 				blocksAtStop       = -1
+				blocksAtCall       = -1
+				posAtCall          = -1
 				posAtStop          = -1
 				post               []postResult
 				finalCloseReturned bool
@@ -203,6 +211,9 @@ func scenario(h history, bound int) vexplore.Scenario {
 				}
 				phase = "stopping"
 				stopIssued = true
+				if h.Stop != stopCancelOther {
+					blocksAtCall, posAtCall = rd.BlocksBegun, rd.Pos
+				}
 				switch h.Stop {
 				case stopClose:
 					s.Close()
@@ -233,10 +244,13 @@ func scenario(h history, bound int) vexplore.Scenario {
 				}
 				phase = "final-close"
 				errAtEnd = s.Err()
-				s.Close()
+				if h.FinalClose {
+					s.Close()
+				}
 				finalCloseReturned = true
-				cancel()
 				phase = "done"
+				// no cleanup beyond this point: every thread the scanner started must
+				// come to an end by itself once the scan was stopped (or completed)
 			}
 			check := func(o *vsched.Outcome) ([]vexplore.Finding, string, bool) {
 				var fs []vexplore.Finding
@@ -244,6 +258,11 @@ func scenario(h history, bound int) vexplore.Scenario {
 					fs = append(fs, vexplore.Finding{Key: h.Format + "/" + k + "/" + stopNames[h.Stop], Msg: m})
 				}
 				complete := len(got) == total && ended
+				// the moment of the stop: the cancelling operation itself when there was
+				// one (exact), else the moment the consumer issued the stop call
+				if blocksAtStop < 0 {
+					blocksAtStop, posAtStop = blocksAtCall, posAtCall
+				}
 				unreadAtStop := 0
 				if blocksAtStop >= 0 {
 					unreadAtStop = pbfBlocks + 1 - blocksAtStop // +1: the header block
@@ -351,7 +370,7 @@ func scenario(h history, bound int) vexplore.Scenario {
 					add("close-did-not-return", "final Close did not return")
 				}
 				// promptness, in blocks / reads
-				if h.Format == "pbf" && blocksAtStop >= 0 && unreadAtStop >= 4 && !strings.Contains(h.Post, "H") || h.Format == "pbf" && blocksAtStop >= 0 && unreadAtStop >= 4 && h.K > 0 {
+				if h.Format == "pbf" && !h.Damaged && blocksAtStop >= 0 && unreadAtStop >= 4 {
 					if begun := rd.BlocksBegun - blocksAtStop; begun > 2 {
 						add("reads-on-after-stop", fmt.Sprintf("%d file blocks were still unread when the scan was stopped; the reader began %d more blocks afterwards (at most 2 allowed), %d of %d bytes consumed at the end", unreadAtStop, begun, rd.Pos, len(rd.Data)))
 					}
@@ -401,7 +420,7 @@ func main() {
 			"PBF input: header + 6 data blocks, XML input: 6 nodes read in 48-byte chunks; non-vacuous = the stop was issued with >= 4 file blocks unread (PBF) or before the end (XML); " +
 			"distinct_nontrivial = distinct complete operation sequences among non-vacuous executions")
 		r.Assume("promptness is a block count: the reader may begin at most 2 file blocks after the cancellation took effect (measured atomically at the cancelling operation); wall-clock latency is not measured")
-		r.Assume("input consumed by a Header/Scan that first starts the decoder AFTER the stop is not judged, only that its threads terminate")
+		r.Assume("a Header/Scan that first starts the decoder AFTER the stop may read the header block (and one more): it falls under the same 2-block allowance; no final Close is issued, so a thread that survives the stop is a leak")
 		var scs []vexplore.Scenario
 		N := len(pbfWant)
 		ks := []int{0, 1, 3, N + 1}
@@ -425,6 +444,9 @@ func main() {
 						hAt = 1
 					}
 					scs = append(scs, scenario(history{Format: "pbf", Procs: pd.p, K: k, HeaderAt: hAt, Stop: stop, Post: "SECSEH"}, pd.d))
+					if pd.p == 1 && (k == 0 || k == 3) {
+						scs = append(scs, scenario(history{Format: "pbf", Procs: pd.p, K: k, HeaderAt: hAt, Stop: stop, Post: "SH", FinalClose: true}, 1))
+					}
 				}
 			}
 		}
